@@ -169,6 +169,12 @@ class Interp:
             inner = self.fresh_typed(prefix, ty[9:-1])
             b = z3.Bool(self.fresh_name(prefix + '.isnone'))
             return Choice([(b, None), (z3.Not(b), inner)])
+        if ty.startswith('rows:'):
+            from .models import Stack2D
+            return Stack2D([self.fresh_seq('%s.row%d' % (prefix, i), 'nd', ek) for i, ek in enumerate(ty[5:].split(','))])
+        if ty.startswith('dict:'):
+            _, keys, vt = ty.split(':')
+            return {k: self.fresh_typed('%s[%s]' % (prefix, k), vt) for k in keys}
         if ty == 'opaque':
             return Opaque(prefix)
         raise Unsupported('unknown type %r' % ty)
@@ -359,6 +365,11 @@ class Interp:
         if fr.spec:
             acc = None
             for v in node.values:
+                if acc is not None and not is_symbolic(acc) and not z3.is_expr(acc):
+                    if is_and and not acc:
+                        return acc      # concrete short-circuit
+                    if not is_and and acc:
+                        return acc
                 x = self.eval(v, fr)
                 acc = x if acc is None else (ops.land(acc, x) if is_and else ops.lor(acc, x))
             return acc
@@ -509,6 +520,10 @@ class Interp:
             return ops.map_choice(base, lambda b: self.index(b, idx))
         if isinstance(base, dict):
             return self.dict_get(base, idx)
+        if self.in_spec and isinstance(base, SSeq) and not isinstance(idx, tuple):
+            return base.at(ops.z3int(idx))      # specs are total: plain array read, no index normalisation
+        if self.in_spec and isinstance(base, str) and is_symbolic(idx):
+            return ops.to_sseq(base).at(ops.z3int(idx))
         if isinstance(base, (SSeq, SChar, str, list, tuple)):
             if isinstance(idx, tuple):
                 # 2-D: base is a tuple/list of rows
@@ -1119,6 +1134,10 @@ class Interp:
             lo, hi, el = self.iter_view(it.it)
             st = it.start
             return lo, hi, (lambda k: (ops.binop('+', ops.binop('-', k, lo), st), el(k)))
+        if isinstance(it, SSet) and it.src is not None:
+            # iteration over set(list): every member is visited; modelled as visiting the list's elements
+            self.trusted_used.add('iteration over set(seq) modelled as iteration over seq (order/multiplicity abstracted)')
+            it = it.src
         if isinstance(it, (SSeq, str, list, tuple, SChar)):
             s = ops.to_sseq(it)
             return 0, ops.mk(s.n, 'int'), (lambda k: s.at(ops.z3int(k)))
@@ -1141,6 +1160,7 @@ class Interp:
             fr.env[idx] = k
             self.assume_invariants(spec, fr)
             self.assign(s.target, elem(k), fr)
+            self.assume_lemmas(spec.get('lemmas', []), fr)
             try:
                 self.exec_block(s.body, fr)
             except ContinueEx:
@@ -1148,6 +1168,7 @@ class Interp:
             except BreakEx:
                 return      # continue after the loop with the state at the break
             self.check_promotion(s, fr, o)
+            self.assume_lemmas(spec.get('post_lemmas', []), fr)
             fr.env[idx] = ops.binop('+', k, 1)
             self.check_invariants(spec, fr, tag, 'preserve', s.lineno)
             raise PathEnd('loop body end')
@@ -1155,6 +1176,7 @@ class Interp:
             self.assume(z3.And(k.e >= loz, k.e >= hiz, z3.Or(k.e == hiz, k.e == loz)))
             fr.env[idx] = k
             self.assume_invariants(spec, fr)
+            self.assume_lemmas(spec.get('exit_lemmas', []), fr)
             # the loop variable keeps its last value when at least one iteration ran
             if self.feasible(ops.z3int(hi) > ops.z3int(lo)) and isinstance(s.target, ast.Name) and \
                     spec.get('keep_target', False):
@@ -1193,6 +1215,7 @@ class Interp:
         if mode == 0:
             c = self.eval(s.test, fr)
             self.assume(ops.z3bool(c) if is_symbolic(c) else bool(c))
+            self.assume_lemmas(spec.get('lemmas', []), fr)
             var0 = self.eval_variant(spec, fr)
             try:
                 self.exec_block(s.body, fr)
@@ -1229,6 +1252,23 @@ class Interp:
         for n, inv in enumerate(spec.get('invariant', [])):
             g = self.eval_spec(inv, fr)
             self.oblige('%s.inv%d.%s' % (tag, n, phase), g, 'invariant', line, note=inv)
+
+    def assume_lemmas(self, texts, fr):
+        from .lemma import LemmaInstance
+        for t in texts:
+            g = self.eval_spec(t, fr)
+            if isinstance(g, LemmaInstance):
+                pre = z3.simplify(g.pre)
+                if not z3.is_true(pre):
+                    self.oblige('%s.lemma.%s.pre@L%d' % (fr.fi.key if fr.fi else self.top_key, g.name, self.cur_line), pre,
+                                'lemma-pre', self.cur_line, note='hypotheses of lemma instance ' + t)
+                    self.assume(pre)
+                self.assume(g.claim)
+                self.lemmas_used.add(g.name)
+                continue
+            self.assume(g if not is_symbolic(g) else ops.z3bool(g))
+
+    lemmas_used = set()
 
     def assume_invariants(self, spec, fr):
         for inv in spec.get('invariant', []):
@@ -1337,6 +1377,8 @@ class Interp:
                 ek = 'int' if eks <= {'int', 'bool'} else list(eks - {'int', 'bool'})[0]
                 return self.fresh_seq(name, 'list' if isinstance(v, list) else 'tuple', ek)
             raise Unsupported('cannot havoc %s (list of unknown element type): give a type in the loop spec' % name)
+        if isinstance(v, dict) and all(not is_symbolic(k) for k in v):
+            return {k: self.fresh_like(x, '%s[%s]' % (name, k)) for k, x in v.items()}
         if v is None:
             raise Unsupported('cannot havoc %s (None before the loop): give a type in the loop spec' % name)
         return Opaque('havoc:' + name)
